@@ -23,25 +23,45 @@ Theorem C18_close_takes_effect : forall sc s,
 Proof. exact close_takes_effect. Qed.
 Print Assumptions C18_close_takes_effect.
 
-(** From any reachable state in which Close has set [p.closed]: every
-    continuation has at most [mu sc s] steps, goes through at most one backoff
-    sleep, and cannot get stuck before Subscribe and Close have both returned. *)
+(** For any history of earlier Subscribe / Close calls on a ReconnectClient:
+    from any reachable state in which some Close has set [p.closed], as long as
+    the application makes no new API call ([nc_step] = all steps but new
+    Subscribe / Close calls) every continuation has at most [mu sc s] steps,
+    goes through at most one backoff sleep, and cannot get stuck before the
+    Subscribe call in progress (if any) and the Close call have returned. *)
 Theorem C18_close_subscribe_terminate : forall sc s,
   reach true sc s -> r_closed s = true ->
-  forall n s', exec (step true sc) s n s' ->
+  forall n s', exec (nc_step true sc) s n s' ->
     n <= mu sc s /\
     nsleep s' <= nsleep s + 1 /\
-    (sstep true sc s' ++ cstep true s' = [] -> s_pc s' = SFin /\ c_pc s' = CFin).
+    (nc (sstep true sc s' ++ cstep true s') = [] ->
+     (s_pc s' = SFin \/ s_pc s' = SIdle) /\ c_pc s' = CFin).
 Proof. exact close_subscribe_terminate_rc. Qed.
 Print Assumptions C18_close_subscribe_terminate.
 
-(** A bare Base/Cache client: executions are bounded, and after a Close that
-    found the transport installed nothing blocks before both calls returned. *)
+(** closed_is_sticky: once some Close call on a ReconnectClient has returned,
+    that stays so and [p.closed] stays set whatever is called afterwards, no
+    subscriber state that hands something to the application is reachable any
+    more, and every later Subscribe call is at most 7 subscriber steps long
+    (no backoff sleep, no handler invocation) -- for every script, schedule
+    and sequence of further calls. *)
+Theorem C18_closed_is_sticky : forall sc s,
+  reach true sc s -> c_done s = true ->
+  r_closed s = true /\ emits (s_pc s) = false /\ mq s <= 8 /\
+  (forall l s1, In (l, s1) (step true sc s) -> c_done s1 = true /\ r_closed s1 = true) /\
+  (forall l s1, In (l, s1) (sstep true sc s) -> is_call l = false ->
+     mq s1 < mq s /\ (forall e, l = Some e -> is_handler e = false)).
+Proof. exact closed_is_sticky. Qed.
+Print Assumptions C18_closed_is_sticky.
+
+(** A bare Base/Cache client, for any history of earlier (sequential) calls:
+    between API calls executions are bounded, and after a Close that succeeded
+    for the Subscribe call in progress nothing blocks before both returned. *)
 Theorem C18_close_subscribe_terminate_base : forall sc s,
   reach false sc s ->
-  forall n s', exec (step false sc) s n s' ->
+  forall n s', exec (nc_step false sc) s n s' ->
     n <= mu sc s /\
-    (close_succeeded s -> sstep false sc s' ++ cstep false s' = [] ->
+    (close_succeeded s -> nc (sstep false sc s' ++ cstep false s') = [] ->
      s_pc s' = SFin /\ c_pc s' = CFin).
 Proof. exact close_subscribe_terminate_base. Qed.
 Print Assumptions C18_close_subscribe_terminate_base.
@@ -70,9 +90,10 @@ Theorem C18_at_most_one_after_close : forall rc sc tr s,
 Proof. exact model_k_after. Qed.
 Print Assumptions C18_at_most_one_after_close.
 
-(** exactly_one_cancel: once both initDone and Close's critical section have
-    run the context is cancelled, by exactly one call of [p.cancel]; before
-    that by none. *)
+(** exactly_one_cancel: for the context of the Subscribe call in progress, once
+    both initDone and some Close's critical section have run it is cancelled,
+    by exactly one effective call of [p.cancel] (repeated Close calls cancel an
+    already cancelled context); before that by none. *)
 Theorem C18_exactly_one_cancel : forall sc s,
   reach true sc s ->
   (r_closed s = true /\ r_hascancel s = true -> ctx_r s = true /\ ncancel s = 1) /\
@@ -83,13 +104,13 @@ Print Assumptions C18_exactly_one_cancel.
 
 (** What K_P's tag-3 monitor means: at every moment of a recording it accepts,
     #disconnect <= #attempts <= #disconnect + 1 (one disconnect per ended
-    attempt), #attempts <= #reset + 1 (a reset before every retry) and
-    #reset <= #disconnect. *)
+    attempt), #reset <= #disconnect, and #attempts <= #reset + #Subscribe calls + 1
+    (every attempt but the first of a call has its own reset before it). *)
 Theorem C18_k_disc_sound : forall tr,
   k_disc true tr = None ->
   forall pre suf, tr = pre ++ suf ->
     cnt isD pre <= cnt isF pre <= S (cnt isD pre) /\
-    cnt isF pre <= S (cnt isR pre) /\ cnt isR pre <= cnt isD pre.
+    cnt isF pre <= S (cnt isR pre + cnt isS pre) /\ cnt isR pre <= cnt isD pre.
 Proof. exact k_disc_sound. Qed.
 Print Assumptions C18_k_disc_sound.
 
